@@ -380,6 +380,9 @@ def main():
     for fid, vs in seen_again.items():
         known_lines.append("KNOWN-FINDING: property=%s %s seen again in this run: %s (e.g. cfg=%s replay=%s)" % (
             prop, fid, ", ".join(sorted(set(x["kind"] for x in vs))), vs[0]["cfg"], vs[0]["replay"]))
+    if known_hits:
+        known_lines.append("KNOWN-FINDING: property=%s hits of listed findings in this run (counted, search continued behind them): %s" % (
+            prop, ", ".join("%s x%d" % kv for kv in sorted(known_hits.items()))))
     wall = time.time() - t0
 
     nontriv_floor = spec.get("nontrivial_floor", 0.0)
